@@ -101,7 +101,19 @@ CHECKS["C19"] = dict(
     design="8/C19",
     note="frame analyser assumptions as for C20; json.load yields lists/dicts; loader = shipped data; histories over everything built from angular grids are bounded only.",
     technique="contract-based deductive verification: ownership analysis + AST symbolic execution over construction histories (ghost data source), z3; bounded random histories as labelled stand-in")
+CHECKS["C15"] = dict(
+    category="proof",
+    text="The algebra the library owns around SciPy's solvers, for ODE orders 1-3 and arbitrary coefficient values / transforms: coefficient "
+         "transformation = Faa di Bruno (chain-rule side generated by the differentiation operator on generic jets), explicit rearrangement, "
+         "derivative-transformation matrix rows = chain rule, the first-order system / interval / initial derivatives handed to solve_ivp "
+         "(captured by executing solve_ode_ivp symbolically with an uninterpreted transform), mapping of returned derivatives, rejection of "
+         "order > 3 with a transform. SciPy's solvers are assumed to solve what they are handed; that end-to-end clause is bounded "
+         "(manufactured solutions of order 1-3, IVP and BVP, all transforms).",
+    design="8/C15",
+    note=TRUST + "solve_ivp/solve_bvp/linalg.solve contracts assumed; sympy.bell by definition for n <= 3; jets checked on generic polynomials.",
+    technique="contract-based deductive verification: AST symbolic execution with callee/external contracts + differentiation operator, z3; bounded manufactured solutions as labelled stand-in")
 BOUNDED_ONLY = {
+    "C07": ("8/C07", "molecular grid = weighted concatenation of atomic grids: index table, segments, weights = atweights x aim, views with store on/off, fan-out of from_size/from_preset/from_pruned against hand-built grids, default radial grids, end-to-end 1% clause on presets"),
     "C05": ("8/C05", "atomic grid structure: shell index table, per-shell scaling/Jacobian/orthogonal image, centre shift, rotation reproducibility, shell extraction, sector map, factorised integrals, every preset file"),
     "C02": ("8/C02", "EXHAUSTIVE: all 450 shipped (method, degree) pairs built five ways; size/degree pair, unit-sphere, exactness for all (l,m) against an own Y_lm oracle (quick: full degree for files <= 16000 points, else l <= 40; thorough: full degree)"),
     "C08": ("8/C08", "real spherical harmonics against a 50+ digit closed-form oracle up to l=20 (thorough 60/90), both implementations, addition theorem, derivatives, solid harmonics, coordinate conversion"),
